@@ -469,7 +469,12 @@ func c02handlers(c *Ctx, p *Prog) {
 			byEdge := map[string]*RecvSite{}
 			okOf := map[ssa.Value]*RecvSite{}
 			var the *RecvSite
-			for _, rs := range p.RecvSites(fn) {
+			// (the receive may sit in a helper the handler calls: serve(dsc.priority.Output()))
+			var allRecv []*RecvSite
+			for _, g := range p.productClosure(fn) {
+				allRecv = append(allRecv, p.RecvSites(g)...)
+			}
+			for _, rs := range allRecv {
 				if !isSrc(rs) {
 					continue
 				}
@@ -478,7 +483,7 @@ func c02handlers(c *Ctx, p *Prog) {
 				}
 				the = rs
 				if rs.Case != nil {
-					byEdge[fmt.Sprintf("%d/%d", rs.Case.From.Index, rs.Case.Succ)] = rs
+					byEdge[fmt.Sprintf("%p/%d", rs.Case.From, rs.Case.Succ)] = rs
 				} else {
 					byInstr[rs.In] = rs
 				}
@@ -503,7 +508,20 @@ func c02handlers(c *Ctx, p *Prog) {
 			fieldOfItem := func(fr *Frame, v ssa.Value, name string) bool {
 				s := p.SymFrame(fr, v).StripInst()
 				want := symField(p.Sym(the.Val), name)
-				return s.String() == want.String()
+				if s.String() == want.String() {
+					return true
+				}
+				// the receive sits in a helper: compare in the terms of the frame chain (parameters
+				// replaced by the arguments of the calls that lead here)
+				for f := fr; f != nil; f = f.Parent {
+					if f.Fn == the.Fn {
+						w2 := symField(p.SymFrame(f, the.Val), name).StripInst()
+						if s.String() == w2.String() {
+							return true
+						}
+					}
+				}
+				return false
 			}
 			fl := &Flow{P: p}
 			fl.Instr = func(fr *Frame, st string, in ssa.Instruction) []string {
@@ -565,7 +583,7 @@ func c02handlers(c *Ctx, p *Prog) {
 				if st == "stop" {
 					return nil
 				}
-				if byEdge[fmt.Sprintf("%d/%d", from.Index, succ)] != nil && from.Parent() == fn {
+				if byEdge[fmt.Sprintf("%p/%d", from, succ)] != nil {
 					return recvd(st)
 				}
 				if _, cs, _ := p.CaseOnEdge(from, succ); cs != nil {
